@@ -25,8 +25,29 @@ var versions = []primitive.ProtocolVersion{primitive.ProtocolVersion2, primitive
 	primitive.ProtocolVersion5, primitive.ProtocolVersionDse1, primitive.ProtocolVersionDse2}
 var comps = []primitive.Compression{primitive.CompressionNone, primitive.CompressionLz4, primitive.CompressionSnappy}
 
+// What the SPECIFICATIONS say about a version - written down here, never asked of the library under test (a raw peer that
+// asked primitive.ProtocolVersion would follow the library into any mistake about its own capabilities):
+//   - framing: checksummed segments after the handshake exist in native_protocol_v5.spec only (section 2); v2, v3, v4 and both
+//     DSE protocol versions (DSE v1 = v4-based, DSE v2 = v5-beta-based, before segments were introduced) use bare frames throughout
+//   - header: 8 bytes with a one-byte stream id in v1/v2, 9 bytes from v3 on
+//   - compression: lz4 and snappy up to v4 and in DSE; v5 knows lz4 only
+func specModern(v primitive.ProtocolVersion) bool { return v == primitive.ProtocolVersion5 }
+
+func specHeaderLen(v primitive.ProtocolVersion) int {
+	if v == primitive.ProtocolVersion2 {
+		return 8
+	}
+	return 9
+}
+
 func allowed(v primitive.ProtocolVersion, c primitive.Compression) bool {
-	return v.SupportsCompression(c)
+	switch c {
+	case primitive.CompressionNone, "", primitive.CompressionLz4:
+		return true
+	case primitive.CompressionSnappy:
+		return v != primitive.ProtocolVersion5
+	}
+	return false
 }
 
 type planned struct {
@@ -374,13 +395,13 @@ func buildPlan(tier string, seed int64) []planned {
 			}
 			for _, auth := range []bool{false, true} {
 				big := 200000
-				if v.SupportsModernFramingLayout() {
+				if specModern(v) {
 					big = 100000 // an envelope must fit one segment to be SENT by this library (see the oversize probe)
 				}
 				n := 9
 				if thorough {
 					n, big = 24, big+r.Intn(20000)
-					if !v.SupportsModernFramingLayout() {
+					if !specModern(v) {
 						big = 700000 + r.Intn(300000)
 					}
 				}
@@ -413,7 +434,7 @@ func buildPlan(tier string, seed int64) []planned {
 		{v5, primitive.CompressionLz4, "lz4", false}, {v5, primitive.CompressionLz4, "lZ4", true}} {
 		reqs := genRequests(r0, sc.v, sc.c, 6, 5000, 10)
 		script := &rawScript{StartupComp: sc.spell, Specs: reqs, Chunk: chunkFor(r0, 5000), Conforming: true, Class: "startup-case"}
-		if sc.v.SupportsModernFramingLayout() {
+		if specModern(sc.v) {
 			script.Plan = mixedPlan(r0, sc.v, reqs, 3, map[int]int{2: 2})
 		}
 		add(planned{ID: fmt.Sprintf("rawclient-v%d-startup-%s-%d", sc.v, sc.spell, k), Mode: "rawclient", Version: int(sc.v), Comp: string(sc.c), Auth: sc.auth, Script: script})
@@ -463,7 +484,7 @@ func buildPlan(tier string, seed int64) []planned {
 		resps, reqs := spareResp(), spareReq()
 		ssc := &rawScript{Specs: resps, Chunk: chunkFor(r0, 3000), Conforming: true, Class: "spare-bytes"}
 		csc := &rawScript{Specs: reqs, Chunk: chunkFor(r0, 3000), Conforming: true, Class: "spare-bytes"}
-		if sc.v.SupportsModernFramingLayout() {
+		if specModern(sc.v) {
 			ssc.Plan = sparePlan(sc.v, resps, [][]int{{0, 1}, {2}, {3, 4, 5}, {-6}, {7, 8, 9}, {10}, {11}})
 			csc.Plan = sparePlan(sc.v, reqs, [][]int{{0}, {1, 2}, {-3}, {4, 5, 6}, {7, 8}, {9}})
 		}
@@ -475,7 +496,7 @@ func buildPlan(tier string, seed int64) []planned {
 	// (b) raw peer, legacy layout: frames back to back, chunked writes
 	j := 0
 	for _, v := range versions {
-		if v.SupportsModernFramingLayout() {
+		if specModern(v) {
 			continue
 		}
 		for _, c := range comps {
@@ -495,6 +516,16 @@ func buildPlan(tier string, seed int64) []planned {
 			add(planned{ID: fmt.Sprintf("rawserver-v%d-%s", v, compName(c)), Mode: "rawserver", Version: int(v), Comp: string(c), Auth: !auth, Reqs: sreq,
 				Script: &rawScript{Specs: genResponses(r, 6, 150000, 10, 2), Chunk: chunkFor(r, 200000), Conforming: true, Class: "legacy"}})
 		}
+	}
+
+	// (b') both DSE versions once more, with authentication (the layout decision is taken on READY *or* AUTHENTICATE) and LZ4:
+	// the raw peer keeps to bare frames after the handshake, as the DSE specifications prescribe
+	for _, v := range []primitive.ProtocolVersion{primitive.ProtocolVersionDse1, primitive.ProtocolVersionDse2} {
+		reqs := genRequests(r0, v, primitive.CompressionLz4, 5, 20000, 10)
+		add(planned{ID: fmt.Sprintf("rawclient-v%d-LZ4-auth-legacy", v), Mode: "rawclient", Version: int(v), Comp: "LZ4", Auth: true,
+			Script: &rawScript{Specs: reqs, Chunk: chunkFor(r0, 30000), Conforming: true, Class: "legacy"}})
+		add(planned{ID: fmt.Sprintf("rawserver-v%d-LZ4-auth-legacy", v), Mode: "rawserver", Version: int(v), Comp: "LZ4", Auth: true, Reqs: smallRequests(5, 10),
+			Script: &rawScript{Specs: genResponses(r0, 5, 20000, 10, 1), Chunk: chunkFor(r0, 30000), Conforming: true, Class: "legacy"}})
 	}
 
 	// (b) raw peer, modern layout: segmentations
